@@ -48,6 +48,38 @@ def gen_plan(ch: Chooser, tier: str) -> dict[str, Any]:
                                'delay': ch.choice([0.0, 0.0005, 0.002, 0.01])}
         triggers.append({'on': {'what': 'write', 'name': name, 'actor_prefix': 'op1', 'nth': ch.int(1, 8)},
                          'actions': [act]})
+    # ... and with its delete handlers: the foreign edit lands while a handler runs, i.e. between the view the
+    # cycle was computed from and the cycle's own requests
+    del_hids = [h['id'] for h in op['handlers'] if h['kind'] == 'delete']
+    for k in range(ch.int(0, 2) if del_hids else 0):
+        name = ch.choice(names)
+        edit = ch.choice(['add-finalizer', 'remove-finalizer', 'remove-finalizer', 'reverse-finalizers'])
+        act2: dict[str, Any] = {'do': 'edit', 'edit': edit, 'name': name, 'actor': 'controller',
+                                'value': f'other.example.com/f{k % 2}', 'pos': ch.choice([0, None]),
+                                'keep': 'kopf.zalando.org/KopfFinalizerMarker',
+                                'delay': ch.choice([0.0, 0.001, 0.05])}
+        triggers.append({'on': {'what': ch.choice(['h+', 'h-']), 'hid': ch.choice(del_hids), 'name': name},
+                         'actions': [act2]})
+    if del_hids and ch.bool(0.3):
+        # the targeted variant: a foreign finalizer standing BEFORE ours goes away exactly while the delete handler
+        # runs, in the cycle that will both merge-patch the progress and remove our finalizer by index
+        name = ch.choice(names)
+        plan['actions'].append({'t': round(ch.float(0.3, 2.0), 6), 'do': 'edit', 'edit': 'add-finalizer', 'name': name,
+                                'value': 'other.example.com/first', 'pos': 0, 'actor': 'controller'})
+        if ch.bool(0.5):
+            plan['actions'].append({'t': round(ch.float(0.3, 2.0), 6), 'do': 'edit', 'edit': 'add-finalizer', 'name': name,
+                                    'value': 'other.example.com/last', 'pos': None, 'actor': 'controller'})
+        if not any(a['do'] == 'delete' and a.get('name') == name for a in plan['actions']):
+            plan['actions'].append({'t': round(ch.float(3.0, plan['horizon']), 6), 'do': 'delete', 'name': name})
+        plan['actions'].sort(key=lambda a: a['t'])
+        for hid in del_hids:
+            triggers.append({'on': {'what': ch.choice(['h+', 'h-']), 'hid': hid, 'name': name},
+                             'actions': [{'do': 'edit', 'edit': 'remove-finalizer', 'name': name, 'actor': 'controller',
+                                          'value': 'other.example.com/first', 'delay': ch.choice([0.0, 0.0005, 0.002])}]})
+        # ... and is released at last, whatever happened
+        for k_, fin_ in enumerate(('other.example.com/first', 'other.example.com/last')):
+            plan['actions'].append({'t': round(plan['horizon'] + 5.0 + k_, 6), 'do': 'edit', 'edit': 'remove-finalizer',
+                                    'name': name, 'value': fin_, 'actor': 'controller'})
     plan['triggers'] = triggers
     if ch.bool(0.4):
         t = ch.float(3.0, plan['horizon'])
